@@ -53,6 +53,12 @@ def plan(tier, seed):
                 if mat.startswith("jax") and fam not in ("hexahedron", "quad"):
                     continue
                 cases.append(dict(key=f"patch/{fam}/{mem}/{mat}", kind="patch", fam=fam, member=mem, mat=mat, seed=seed, cost=8 if "27" in fam or "10" in fam or "20" in fam else 3))
+    # patch tests on regions with a USER-SUPPLIED quadrature rule that is rich enough for the family (the rules `project`
+    # documents for the simplex families, higher Gauss-Legendre / Gauss-Lobatto orders for the tensor-product ones)
+    for fam, rule in (("triangle6", "Triangle5"), ("triangle6", "Triangle3"), ("triangle", "Triangle5"), ("tetra10", "Tetrahedron3"), ("tetra", "Tetrahedron3"), ("quad", "GaussLegendre2"), ("quad", "GaussLobatto2"),
+                      ("quad8", "GaussLegendre3"), ("hexahedron", "GaussLegendre2"), ("hexahedron20", "GaussLegendre3")):
+        for mem in ["distorted"] + (["curved"] if fam in ("triangle6", "quad8", "hexahedron20") else []):
+            cases.append(dict(key=f"patch/{fam}/{mem}/NeoHooke/rule={rule}", kind="patch", fam=fam, member=mem, mat="NeoHooke", rule=rule, seed=seed, cost=6))
     for fam in ["hexahedron", "hexahedron20", "tetra", "tetra10", "quad", "quad8", "triangle", "triangle6"] + ([] if quick else ["hexahedron27", "quad9"]):
         for mat in (MATS if (fam in ("hexahedron", "quad") or not quick) else MATS[:2]):
             if mat.startswith("jax") and fam not in ("hexahedron", "quad"):
@@ -259,6 +265,11 @@ def run(case):
         fam, mat = case["fam"], case["mat"]
         mesh, region, twin = build(fam, case["member"], seed)
         d = mesh.dim
+        if case.get("rule"):
+            rn = case["rule"]
+            qd = {"Triangle": lambda o: fem.TriangleQuadrature(order=o), "Tetrahedron": lambda o: fem.TetrahedronQuadrature(order=o),
+                  "GaussLegendre": lambda o: fem.GaussLegendre(order=o, dim=d), "GaussLobatto": lambda o: fem.GaussLobatto(order=o, dim=d)}[rn.rstrip("0123456789")](int(rn[-1]))
+            region = type(region)(mesh, quadrature=qd)
         um = make_umat(mat)
         Fcls = fem.Field if d == 3 else fem.FieldPlaneStrain
         P = twin.points
